@@ -214,8 +214,26 @@ func (r *Run) writeReplay(v Violation) string {
 	return path
 }
 
+// KeptKey: violation keys that every check reports whatever property it serves: engine problems, executions that
+// do not terminate and events that make the Go runtime kill the process.
+func KeptKey(k string) bool {
+	return strings.HasPrefix(k, "engine|") || strings.HasPrefix(k, "livelock|") || strings.HasPrefix(k, "fatal|")
+}
+
 // TimeUp reports whether the internal deadline has passed.
 func (r *Run) TimeUp() bool { return time.Now().After(r.Deadline) }
+
+// EnsureBudget makes sure that the next part of a check that consists of several parts has at least d (quick)
+// or 4*d (thorough) to run, even if the earlier parts used up the budget (a loaded machine must not turn a later
+// part into a no-op).
+func (r *Run) EnsureBudget(d time.Duration) {
+	if r.Thorough() {
+		d *= 4
+	}
+	if time.Until(r.Deadline) < d {
+		r.Deadline = time.Now().Add(d)
+	}
+}
 
 // ---- worker pool: the same binary is started with -worker; tasks and results are JSON lines ----
 
